@@ -109,7 +109,9 @@ func oracleC02() *Result {
 		k = 3
 	}
 	var tasks []Task
-	add := func(b []byte, tag string) { tasks = append(tasks, Task{Oracle: "C02", Cfg: versions, Src: b, Tag: tag}) }
+	add := func(b []byte, tag string) {
+		tasks = append(tasks, Task{Oracle: "C02", Cfg: versions, Src: b, Tag: tag})
+	}
 	for _, c := range regressionInputs("C02") {
 		add(c, "regression")
 	}
